@@ -1,13 +1,17 @@
 (* C06 — HTJ2K lossless. Property theorems only.
 
-   SCOPE (read this first).  The HT cleanup pass AS A WHOLE — quad scanning and context formation
-   (c_q from the neighbouring significance), the exponent predictor (kappa / E_max over the
-   previous row), MagSgn bit packing, the interleaving of the three byte streams and the MEL/VLC
-   byte fusion — is NOT modelled.  Therefore no theorem here states "decode (encode frame) =
-   frame"; the end-to-end round trip of the .201/.202 transfer syntaxes (all sizes incl. 1-pixel
-   wide/high, 8/16 bit, 1/3 components, block sizes, levels 0..6) and the 14 OpenJPH/fo-dicom
-   fixtures are decided by the Go oracles of harness/suites/j2ke2e (c05c06.go) together with the
-   block-level oracle of harness/suites/ht.  The property level of C06 is PARTIAL.
+   SCOPE (read this first).  The HT cleanup pass AS A WHOLE — quad scanning and context formation,
+   the exponent predictor (kappa / E_max over the previous row), MagSgn bit packing, the three byte
+   streams and the MEL/VLC byte fusion — IS modelled (HT/HtBlockEnc.v, HtBlockDec.v, byte-exact
+   against the Go block coder) and its round trip is proved: see Props/C06_block.v
+   (C06_ht_cleanup_roundtrip, _validated, C06_ht_segments_wellformed).  This file holds the
+   component theorems below.  Still NOT a theorem: "decode (encode frame) = frame" for a whole
+   frame — the chain block coder -> T2 packets (C04) -> 5/3 + RCT (C20) -> tile/components is not
+   composed in Coq; the end-to-end round trip of the .201/.202 transfer syntaxes (all sizes incl.
+   1-pixel wide/high, 8/16 bit, 1/3 components, block sizes, levels 0..6) and the 14
+   OpenJPH/fo-dicom fixtures are decided by the Go oracles of harness/suites/j2ke2e (c05c06.go)
+   together with the block-level oracles of harness/suites/ht.  The property level of C06 is
+   PARTIAL for that reason only.
 
    What IS proved, over models tied to the Go code by the correspondence run and over tables
    regenerated from /repo on every run (Gen/HtTables_gen.v):
@@ -17,7 +21,8 @@
      C06_scup_fits_validated_block   Scup <= 4079 for every code-block the encoder accepts since the
                                      repair of finding F20 (width*height <= 4096), from the proved MEL
                                      size bound and the table maxima; cleanup-pass structure as named
-                                     hypotheses
+                                     hypotheses (discharged from the block model in C06_block.v:
+                                     C06_ht_suffix_fits)
      C06_uvlc_exhaustive / _pair     U-VLC: the whole range, spec coder and live pair coder
      C06_vlc_tables_inverse_exhaustive, C06_vlc_encode_decode   CxtVLC over the regenerated tables
      C06_scup_roundtrip              Scup locator
